@@ -274,7 +274,7 @@ def gen_C13(seed, tier):
     cases.append(c)
     # every pair of windows (incl. empty and point-like) across two logically different grids, and across
     # equal grids held in distinct objects: equality, union and intersection
-    for kind, g2 in (('moved', p[:2] + [p[2] + Fr(1, 2)] + p[3:]), ('longer', p + [p[-1] + 1]), ('equal', list(p))):
+    for kind, g2 in (('moved', p[:2] + [p[2] + Fr(1, 2)] + p[3:]), ('longer', p + [p[-1] + 1]), ('first', [p[0] - Fr(1, 2)] + p[1:]), ('shorter', p[:-1]), ('equal', list(p))):
         c = Case(f"C13x_{kind}")
         c.grid_new(0, p)
         c.grid_new(1, g2)
@@ -335,7 +335,15 @@ def gen_C02(seed, tier):
                 c.spl_new(d, o, d + 1000, [[Fr(10 * (j + 1) + i) for i in range(o + 1)] for j in range(nint(w))])
                 c.spl_front(d)
                 c.spl_back(d)
-                for x in eval_points(pts, w):
+                xs = eval_points(pts, w)
+                for x in xs:
+                    c.spl_eval(d, x)
+                # evaluation must not depend on what was evaluated before: descending, then shuffled
+                for x in reversed(xs):
+                    c.spl_eval(d, x)
+                ys = list(xs)
+                rng.shuffle(ys)
+                for x in ys[:12]:
                     c.spl_eval(d, x)
             cases.append(c)
     # random larger grids, random coefficients
@@ -576,6 +584,12 @@ def gen_C06(seed, tier, linear=False):
                 c.bilin(e1, e2, 2, 3)
                 c.bilin(e2, e1, 3, 2)                     # swapped pairs
                 c.bilin(E('Id'), E('Id'), 2, 3)           # scalar product
+                if bi == ai:
+                    # the same object as both arguments, operators of ONE C++ type with different state
+                    c.bilin(E('SMulL', Sc('F', Fr(2)), E('Der', 1)), E('SMulL', Sc('F', Fr(3)), E('Der', 1)), 2, 2)
+                    c.bilin(E('SMulL', Sc('I', 2), E('Pos', 1)), E('SMulL', Sc('I', -5), E('Pos', 1)), 2, 2)
+                    c.bilin(e1, e2, 2, 2)
+                    c.bilin(E('Id'), E('Id'), 2, 2)
                 if linear:
                     # bilinear form = identity linear form of the product spline
                     o1 = e1.out_ord(oa, c.order)
@@ -683,6 +697,8 @@ def grid_variants(rng, pts):
     v['suffix'] = list(pts[1:])
     q = list(pts); q[-1] = pts[-1] + Fr(1, 7)
     v['agree_on_overlap'] = q          # differs only at the last point
+    q = list(pts); q[0] = pts[0] - Fr(1, 3)
+    v['first_moved'] = q               # same size, differs only at the first point
     return {k: g for k, g in v.items() if len(g) >= 2}
 
 
@@ -796,7 +812,8 @@ def gen_C11(seed, tier):
     c.grid_new(0, vals)
     bad = [[], [vals[0]], [vals[0]] * 4, [vals[1], vals[0]], [vals[0], vals[1], vals[1], vals[0]],
            [vals[0], vals[2], vals[1], vals[3]], list(vals) + [vals[0]]]
-    good = [list(vals), [vals[0], vals[0], vals[1], vals[2], vals[2], vals[3], vals[3]], [vals[0], vals[1]]]
+    good = [list(vals), [vals[0], vals[0], vals[1], vals[2], vals[2], vals[3], vals[3]], [vals[0], vals[1]],
+            [vals[0]] * 3 + [vals[1]] * 3, [vals[0]] * 4 + [vals[2]] * 4, [vals[0], vals[0], vals[1], vals[1]]]
     d0 = 10
     for ks in bad + good:
         for p in (0, 1, 3):
@@ -902,18 +919,19 @@ def gen_C15(seed, tier):
                 c.spl_mul(6, 2, 3); c.show(6); c.spl_is_zero(6)
             cases.append(c)
     # equality across logically different grids (empty, point-like and coinciding windows)
-    c = Case("C15_diffgrid")
-    c.grid_new(0, pts)
-    c.grid_new(1, pts[:-1] + [pts[-1] + 1])
-    for wi, w in enumerate([(0, 0), (1, 2), (0, 3), (2, 4)]):
-        for gi in (0, 1):
-            c.sup_new(1000 + 10 * wi + gi, gi, w[0], w[1])
-            c.spl_new(200 + 10 * wi + gi, 1, 1000 + 10 * wi + gi, [[Fr(1), Fr(2)] for _ in range(nint(w))])
-    for wi in range(4):
-        for wj in range(4):
-            c.spl_eq(200 + 10 * wi, 200 + 10 * wj + 1); c.spl_eq(200 + 10 * wj + 1, 200 + 10 * wi)
-            c.spl_overlap(200 + 10 * wi, 200 + 10 * wj + 1)
-    cases.append(c)
+    for tag, other in (("last", pts[:-1] + [pts[-1] + 1]), ("first", [pts[0] - 1] + pts[1:])):
+        c = Case("C15_diffgrid_" + tag)
+        c.grid_new(0, pts)
+        c.grid_new(1, other)
+        for wi, w in enumerate([(0, 0), (1, 2), (0, 3), (2, 4)]):
+            for gi in (0, 1):
+                c.sup_new(1000 + 10 * wi + gi, gi, w[0], w[1])
+                c.spl_new(200 + 10 * wi + gi, 1, 1000 + 10 * wi + gi, [[Fr(1), Fr(2)] for _ in range(nint(w))])
+        for wi in range(4):
+            for wj in range(4):
+                c.spl_eq(200 + 10 * wi, 200 + 10 * wj + 1); c.spl_eq(200 + 10 * wj + 1, 200 + 10 * wi)
+                c.spl_overlap(200 + 10 * wi, 200 + 10 * wj + 1)
+        cases.append(c)
     return cases
 
 
@@ -968,8 +986,12 @@ def gen_history(rng, cid, length, show_every=True):
     for step in range(length):
         r = rng.random()
         a = pick()
-        if r < 0.10:
+        if r < 0.07:
             new_spline()
+        elif r < 0.10:
+            c.spl_eval(a, pts[0]); c.spl_eval(a, pts[-1])
+            for k in range(1, n - 1):
+                c.spl_eval(a, (pts[k] + pts[k + 1]) / 2); c.spl_eval(a, pts[k])
         elif r < 0.16:
             d = fresh(); c.spl_copy(d, a); spl[d] = spl[a]
         elif r < 0.22:
@@ -1015,7 +1037,13 @@ def gen_history(rng, cid, length, show_every=True):
         elif r < 0.85:
             c.lin(rand_expr(rng, 1), a)
         elif r < 0.89:
-            c.spl_eval(a, pts[rng.randrange(n)] + Fr(rng.randint(-1, 1), 3)); c.spl_is_zero(a)
+            xi = rng.randrange(n)
+            c.spl_eval(a, pts[xi] + Fr(rng.randint(-1, 1), 3)); c.spl_is_zero(a)
+            # evaluation is a const operation: its result may not depend on earlier evaluations of the same object
+            # (approach every grid point from the right interval, then from the left one)
+            for k in range(1, n - 1):
+                c.spl_eval(a, (pts[k] + pts[k + 1]) / 2); c.spl_eval(a, pts[k])
+                c.spl_eval(a, (pts[k - 1] + pts[k]) / 2); c.spl_eval(a, pts[k])
             b = pick(order=spl[a]); c.spl_eq(a, b); c.spl_overlap(a, pick())
         elif r < 0.92:
             # failing constructions interleaved
